@@ -6,6 +6,7 @@ inner service by the validator; the validator is `authorized ∨ ¬listed`; only
 the HTTP layer mints `Authorized`, under `allow_all ∨ header == expected`;
 `allow()` only when auth is disabled; middleware wiring precedes start."""
 import itertools
+import os
 
 from effects import Effects
 from lockrule import LockModel
@@ -832,9 +833,11 @@ def _check_wiring(R, F, CG):
                 else:
                     n_err += 1
         if bad or n_err < 2:
-            ok_tab, why_tab = _validate_config_rule_table(F, vc)
+            ok_tab, why_tab = _validate_config_rule_table(F, F.inlined(vc))     # predicate helpers of the file read in place
             if ok_tab:
                 bad, n_err = False, 2
+            elif os.environ.get("VERIF_DEBUG"):
+                print("validate_config table:", why_tab)
         R.ob(not bad and n_err >= 2, "GUARD", vc.where(), "GUARD|validate_config|auth-needs-credentials",
              "validate_config accepts auth enabled without user/password",
              sample={"rule": "GUARD validate_config", "err_paths": n_err})
@@ -851,21 +854,50 @@ def _validate_config_rule_table(F, vc):
     from terms import call_origin
     rets += [call_origin(vc, b["term"], 0, frozenset(), 40) for b in vc.blocks if not b.get("cleanup") and b["term"]["k"] == "call"
              and b["term"]["dest"]["l"] == 0 and not b["term"]["dest"].get("p")]
-    if len(rets) != 1:
-        return False, "more than one way to return"
-    r = rets[0]
-    if not (r[0] == "call" and r[1].split("::")[-1] == "map_or" and len(r[2]) == 3):
-        return False, "returned value is not find(..).map_or(Ok, Err)"
-    found, dflt, mapper = r[2]
-    if not (dflt[0] == "agg" and dflt[1].endswith("Result::Ok")):
-        return False, "default is not Ok"
     from terms import closures_in_term
-    mcl = [F.fns.get(x) for x in closures_in_term(mapper)]
-    if len(mcl) != 1 or mcl[0] is None:
-        return False, "mapper closure not found"
-    mret = [_rvo(mcl[0], s_["rv"], 0, frozenset(), 40) for b in mcl[0].blocks for s_ in b["stmts"] if s_["k"] == "assign" and s_["lhs"]["l"] == 0]
-    if not mret or not all(x[0] == "agg" and x[1].endswith("Result::Err") for x in mret):
-        return False, "a found rule is not turned into Err"
+    found = None
+    if len(rets) == 1 and rets[0][0] == "call" and rets[0][1].split("::")[-1] == "map_or" and len(rets[0][2]) == 3:
+        found, dflt, mapper = rets[0][2]
+        if not (dflt[0] == "agg" and dflt[1].endswith("Result::Ok")):
+            return False, "default is not Ok"
+        mcl = [F.fns.get(x) for x in closures_in_term(mapper)]
+        if len(mcl) != 1 or mcl[0] is None:
+            return False, "mapper closure not found"
+        mret = [_rvo(mcl[0], s_["rv"], 0, frozenset(), 40) for b in mcl[0].blocks for s_ in b["stmts"] if s_["k"] == "assign" and s_["lhs"]["l"] == 0]
+        if not mret or not all(x[0] == "agg" and x[1].endswith("Result::Err") for x in mret):
+            return False, "a found rule is not turned into Err"
+    else:
+        # the same decision as a match: `match rules.iter().find(..) { Some((_, msg)) => Err(msg.into()), None => Ok(()) }`
+        fcs = [c for c in vc.calls() if (c.method or "") == "find" and (c.trait or "").endswith("Iterator") and not vc.is_cleanup(c.bb)]
+        if len(fcs) != 1:
+            return False, "returned value is neither find(..).map_or(Ok, Err) nor a match on one find(..)"
+        d_ = fcs[0].t["dest"]["l"]
+        sw_ = None
+        for bi, b in enumerate(vc.blocks):
+            if b.get("cleanup") or b["term"]["k"] != "switch":
+                continue
+            dd = origin(vc, b["term"]["discr"])
+            if dd[0] == "discr" and len(dd) > 3 and {n for (n, _v) in (dd[3] or [])} == {"None", "Some"} and any(x[1].split("::")[-1] == "find" for x in calls_in(dd)):
+                sw_ = (bi, b["term"], dd)
+        if sw_ is None:
+            return False, "the result of find is not matched on"
+        vals_ = dict(sw_[2][3])
+        tg_ = dict((v_, tb_) for v_, tb_ in sw_[1]["targets"])
+        none_t = tg_.get(vals_["None"], sw_[1]["otherwise"])
+        some_t = tg_.get(vals_["Some"], sw_[1]["otherwise"])
+
+        def kinds_from(start, avoid):
+            ks = set()
+            for x in vc.reachable(start, avoid={avoid}) | {start}:
+                if vc.is_cleanup(x):
+                    continue
+                for s_ in vc.blocks[x]["stmts"]:
+                    if s_["k"] == "assign" and s_["lhs"]["l"] == 0 and not s_["lhs"].get("p") and s_["rv"]["k"] == "agg":
+                        ks.add(s_["rv"].get("variant"))
+            return ks
+        if none_t == some_t or kinds_from(none_t, some_t) != {"Ok"} or kinds_from(some_t, none_t) != {"Err"}:
+            return False, "a found rule is not turned into Err (or no rule found is not Ok)"
+        found = sw_[2][1]
     fc = [x for x in calls_in(found) if x[1].split("::")[-1] == "find"]
     if len(fc) != 1 or len(fc[0][2]) != 2:
         return False, "no find over the rules"
